@@ -307,6 +307,15 @@ pub fn run_c03(ctx: &Ctx) -> (&'static str, Map<String, Value>) {
     for (s, ms) in windows(&[hw(5, 4), hw(5, 4)], 3) {
         cfgs.push(cfg(ctx, Hid::S24, vec![hw(5, 4), hw(5, 4)], s, ms, 1, devs[..3].to_vec()));
     }
+    // mixed heights with three levels, and every hash once with budget 1 over the whole alphabet
+    cfgs.push(cfg(ctx, Hid::S16, vec![hw(2, 4), hw(5, 8), hw(2, 2)], 0, None, 1, devs[..2].to_vec()));
+    cfgs.push(cfg(ctx, Hid::S24, vec![hw(5, 8), hw(2, 4), hw(2, 4)], 0, None, 0, vec![]));
+    for h in [Hid::S24, Hid::K32, Hid::K24] {
+        cfgs.push(cfg(ctx, h, vec![hw(2, 4), hw(2, if h.shake() { 2 } else { 8 })], 0, None, 1, devs.clone()));
+    }
+    for (s, ms) in windows(&[hw(10, 4), hw(2, 4)], 2) {
+        cfgs.push(cfg(ctx, Hid::S16, vec![hw(10, 4), hw(2, 4)], s, ms, 0, vec![]));
+    }
     if th {
         devs.extend(dev_aux());
         for h in ALL_HASHES {
@@ -346,7 +355,8 @@ pub fn run_c04(ctx: &Ctx) -> (&'static str, Map<String, Value>) {
     cfgs.push(cfg(ctx, Hid::S16, vec![hw(2, 4), hw(2, 4), hw(2, 4)], 0, None, 1, devs.clone()));
     if th {
         cfgs.push(cfg(ctx, Hid::S32, vec![hw(5, 8), hw(5, 8)], 0, None, 1, devs.clone()));
-        cfgs.push(cfg(ctx, Hid::S32, vec![hw(2, 4), hw(5, 4)], 0, None, 2, devs.clone()));
+        cfgs.push(cfg(ctx, Hid::S32, vec![hw(2, 4), hw(5, 4)], 0, None, 1, devs.clone()));
+        cfgs.push(cfg(ctx, Hid::S16, vec![hw(2, 4), hw(2, 4)], 0, None, 2, devs.clone()));
         for l in 4..=8usize {
             let params: Vec<Param> = (0..l).map(|_| hw(2, 4)).collect();
             for (s, ms) in windows(&params, 1) {
